@@ -8,6 +8,7 @@ import (
 	"container/list"
 	"fmt"
 	"io/fs"
+	"os"
 	"path/filepath"
 	"sort"
 	"strings"
@@ -143,8 +144,8 @@ func VfAccounting(st VfState, inflight int64) []string {
 	return out
 }
 
-// VfListFiles returns relative path -> size of every regular file under the
-// three key space directories (and anything unexpected at the top).
+// VfListFiles returns relative path -> size of every regular file under
+// the cache directory (full walk, ~6 ms on tmpfs).
 func VfListFiles(dir string) map[string]int64 {
 	out := map[string]int64{}
 	_ = filepath.WalkDir(dir, func(p string, d fs.DirEntry, err error) error {
@@ -162,10 +163,74 @@ func VfListFiles(dir string) map[string]int64 {
 	return out
 }
 
+// vfHot lists the two-letter sub-directories in which the harness expects
+// files (set by drivers with small fixed key sets); listing only those is
+// ~50x cheaper than a full walk. A full walk still happens at the points the
+// drivers choose (VfListFiles).
+var vfHot []string
+
+// VfSetHot declares the hashes a driver uses.
+func VfSetHot(hashes ...string) {
+	seen := map[string]bool{}
+	vfHot = nil
+	for _, h := range hashes {
+		if len(h) >= 2 && !seen[h[:2]] {
+			seen[h[:2]] = true
+			for _, ks := range []string{"cas.v2", "ac.v2", "raw.v2"} {
+				vfHot = append(vfHot, filepath.Join(ks, h[:2]))
+			}
+		}
+	}
+}
+
+// VfFastSkeleton switches the disk.New fast path on for dir (which must
+// already hold the directory skeleton) using the declared hot directories.
+// Honoured unless VERIF_PARAM_NOFAST=1 (conformance runs).
+func VfFastSkeleton(dir string) {
+	if os.Getenv("VERIF_PARAM_NOFAST") == "1" || len(vfHot) == 0 {
+		vsched.SetFastSkeleton("", nil)
+		return
+	}
+	real, err := filepath.EvalSymlinks(dir)
+	if err != nil {
+		real = dir
+	}
+	vsched.SetFastSkeleton(real, vfHot)
+}
+
+// VfListHot lists only the hot sub-directories (all, if none declared).
+func VfListHot(dir string) map[string]int64 {
+	if len(vfHot) == 0 {
+		return VfListFiles(dir)
+	}
+	out := map[string]int64{}
+	for _, sub := range vfHot {
+		des, err := os.ReadDir(filepath.Join(dir, sub))
+		if err != nil {
+			continue
+		}
+		for _, de := range des {
+			if de.Type().IsRegular() {
+				if fi, err := de.Info(); err == nil {
+					out[filepath.Join(sub, de.Name())] = fi.Size()
+				}
+			}
+		}
+	}
+	return out
+}
+
 // VfDirectory checks C04 on a quiescent cache: directory == index.
 func VfDirectory(cc Cache, st VfState) []string {
-	c := vfUnwrap(cc)
-	files := VfListFiles(c.dir)
+	return vfDirectoryWith(cc, st, VfListFiles(vfUnwrap(cc).dir))
+}
+
+// VfDirectoryHot is VfDirectory restricted to the hot sub-directories.
+func VfDirectoryHot(cc Cache, st VfState) []string {
+	return vfDirectoryWith(cc, st, VfListHot(vfUnwrap(cc).dir))
+}
+
+func vfDirectoryWith(cc Cache, st VfState, files map[string]int64) []string {
 	var out []string
 	want := map[string]int64{}
 	for _, e := range st.Entries {
